@@ -17,7 +17,7 @@ use std::path::{Path, PathBuf};
 pub static SPEC: PropSpec = PropSpec {
     id: "C14",
     level: "exploration",
-    rule: "projects: the 8 corpus projects; generated projects with 1-5 library packages (dependency DAGs with diamonds, cross-package structs in signatures, generic functions and enums, traits with impls for local and primitive types, impls of a foreign trait for a local type, 1-3 source files per package); and textual mutations of them (one import dropped from one file of a multi-file package, all imports of a package dropped, a call redirected to a function that does not exist, a return type changed, an impl removed, a definition duplicated in a second file, a package declaration changed) that usually make the project invalid. each is compiled whole and separately under every topological order of its package graph (at most 8): acceptance parity, equal behaviour of the two Go programs (stdout / termination, and the model's expected stdout for unmutated generated projects), check interface == build interface for every package. non-trivial: projects accepted both ways and executed; distinct by source hash",
+    rule: "projects: the 8 corpus projects; three projects with a package that contains no function (types only, generic types only, a trait only - used statically and through dyn); generated projects with 1-5 library packages (dependency DAGs with diamonds, cross-package structs in signatures, generic functions and enums, traits with impls for local and primitive types, impls of a foreign trait for a local type, 1-3 source files per package); and textual mutations of them (one import dropped from one file of a multi-file package, all imports of a package dropped, a call redirected to a function that does not exist, a return type changed, an impl removed, a definition duplicated in a second file, a package declaration changed) that usually make the project invalid. each is compiled whole and separately under every topological order of its package graph (at most 8): acceptance parity, equal behaviour of the two Go programs (stdout / termination, and the model's expected stdout for unmutated generated projects), check interface == build interface for every package. non-trivial: projects accepted both ways and executed; distinct by source hash",
     eval_counter: "project_observations",
     assumptions: &["behaviour is compared through gomini; artifacts are written and re-read through the same serde_json path the CLI uses"],
     crash_is_violation: false,
@@ -133,8 +133,17 @@ fn observe(c: &mut Case, label: &str, root: &Path, art_base: &Path, expected: Op
         let sep = match runner::guard(|| projdrv::observe_separate(root, order, &dirs, &art)) {
             Ok(s) => s,
             Err(p) => {
-                c.inconclusive(format!("compiler panic at {} (separate; a C04 event)", p.site));
                 let _ = std::fs::remove_dir_all(&art);
+                if whole_ok {
+                    // the whole-program path accepts the project: the separate path must produce the same program, not crash
+                    c.violation(
+                        format!("C14:separate-path-crashes:{}", crate::diff::msg_class(&p.site)),
+                        format!("whole-program compile accepts the project, check/build/link in order {:?} crashes at {}: {}", order, p.site, util::truncate(&p.message, 140)),
+                        json!({"label": label, "what": what, "order": order, "sources": util::truncate(&srcs, 8000)}),
+                    );
+                } else {
+                    c.inconclusive(format!("compiler panic at {} (separate; a C04 event)", p.site));
+                }
                 return;
             }
         };
@@ -328,6 +337,58 @@ fn run(ctx: &mut Ctx) {
         });
         let _ = std::fs::remove_dir_all(&root);
         let _ = std::fs::remove_dir_all(&art);
+    }
+    // packages without any function (only types / only a trait): their exports must reach the linked program
+    {
+        let scen: Vec<(&str, Vec<(&str, &str)>, &str)> = vec![
+            (
+                "type-only-package",
+                vec![
+                    ("Shapes/lib.gom", "package Shapes\n\nstruct Pt { x: int32, y: int32 }\n\nenum Kind { Dot, Line(int32) }\n"),
+                    ("Geo/lib.gom", "package Geo\nimport Shapes\n\nfn mk(x: int32) -> Shapes::Pt { Shapes::Pt { x: x, y: x + 1 } }\n\nfn len(k: Shapes::Kind) -> int32 { match k { Shapes::Kind::Dot => 0, Shapes::Kind::Line(n) => n } }\n"),
+                    ("main.gom", "package Main\nimport Shapes\nimport Geo\n\nfn main() {\n    let p = Geo::mk(4);\n    let _ = string_println(int32_to_string(p.x * 10 + p.y));\n    let _ = string_println(int32_to_string(Geo::len(Shapes::Kind::Line(7)) + Geo::len(Shapes::Kind::Dot)));\n    ()\n}\n"),
+                ],
+                "45\n7\n",
+            ),
+            (
+                "generic-type-only-package",
+                vec![
+                    ("Boxes/lib.gom", "package Boxes\n\nstruct Bx[T] { it: T }\n\nenum Opt[T] { Some(T), None }\n"),
+                    ("main.gom", "package Main\nimport Boxes\n\nfn unwrap(o: Boxes::Opt[int32]) -> int32 { match o { Boxes::Opt::Some(v) => v, Boxes::Opt::None => 0 - 1 } }\n\nfn main() {\n    let b: Boxes::Bx[int32] = Boxes::Bx { it: 5 };\n    let _ = string_println(int32_to_string(b.it + unwrap(Boxes::Opt::Some(6)) + unwrap(Boxes::Opt::None)));\n    ()\n}\n"),
+                ],
+                "10\n",
+            ),
+            (
+                "trait-only-package",
+                vec![
+                    ("Shown/lib.gom", "package Shown\n\ntrait Show {\n    fn show(Self) -> string;\n}\n"),
+                    ("Things/lib.gom", "package Things\nimport Shown\n\nstruct Th { v: int32 }\n\nfn mk(v: int32) -> Th { Th { v: v } }\n\nimpl Shown::Show for Th {\n    fn show(self: Th) -> string { \"th\" + int32_to_string(self.v) }\n}\n"),
+                    ("main.gom", "package Main\nimport Shown\nimport Things\n\nfn via(d: dyn Shown::Show) -> string { Shown::Show::show(d) }\n\nfn main() {\n    let t = Things::mk(3);\n    let _ = string_println(Shown::Show::show(t));\n    let u = Things::mk(4);\n    let _ = string_println(via(u));\n    ()\n}\n"),
+                ],
+                "th3\nth4\n",
+            ),
+        ];
+        for (i, (name, files, expected)) in scen.into_iter().enumerate() {
+            if !ctx.mine(50_000 + i as u64) {
+                continue;
+            }
+            let files: Vec<(PathBuf, String)> = files.into_iter().map(|(p, t)| (PathBuf::from(p), t.to_string())).collect();
+            let root = scratch.join(format!("c14s-{}", i));
+            let art = scratch.join(format!("c14s-{}-art", i));
+            let _ = std::fs::remove_dir_all(&root);
+            let order: Vec<usize> = (0..files.len()).collect();
+            let label = format!("function-less-package/{}", name);
+            ctx.case(&label.clone(), |c| {
+                if projgen::materialize(&root, &files, &order).is_err() {
+                    c.inconclusive("cannot materialise project");
+                    return;
+                }
+                observe(c, &label, &root, &art, Some(expected), "package without functions");
+                c.sample(json!({"workload": "function-less package", "name": name}));
+            });
+            let _ = std::fs::remove_dir_all(&root);
+            let _ = std::fs::remove_dir_all(&art);
+        }
     }
     // generated projects and their mutants
     let np = tier.pick(96u64, 2_400u64) / ctx.nshards as u64 + 1;
